@@ -15,9 +15,9 @@ EXPLANATION = (
 )
 BOUNDS = {
     "quick": dict(items="1..3 (n=3: kinds L,C,S; the stub-under-stub kind T only for n<=2)", value_box="targets in [-1e4,1e4], widths in (0,1000], spacing in [0,50], lower bound in [-1e4,1e4], upper in [-1e4,3e4]", tolerance="0.5 rounding + 0.01 for the code's 1e10-weight soft walls and 1e-4 multiplier tolerance"),
-    "thorough": dict(items="1..4 (n=4: kinds L,S with 0/1 bound, kind L with two bounds)", value_box="as quick"),
+    "thorough": dict(items="1..3 with all four item kinds (4 items with the KKT oracle were measured beyond 20 minutes and are not registered)", value_box="as quick"),
 }
-OUTSIDE = ["layers that do not fit between two bounds (the property's own restriction)", "layers of more than 4 items", "IEEE-754 rounding"]
+OUTSIDE = ["layers that do not fit between two bounds (the property's own restriction)", "layers of more than 3 items", "IEEE-754 rounding"]
 ASSUMPTIONS = [
     "floats as exact reals; round() ties-to-even",
     "Solver.solve cost-stationarity test over-approximated (both outcomes explored)",
@@ -35,8 +35,6 @@ def _force_configs(tier):
         return F([2, 3]) + F([2], algs=("overlap", "simple"), bounds=((0, 100),), hists=("reconf", "engine2", "stale", "subset", "interleaved"))
     c = F([1, 2, 3], dens=(0.85, 0.5), stubws=(1, 5), bounds=((0, 100), (None, 100), (0, None), (-30, 45)))
     c += F([2], bounds=((0, 100), (None, 100)), hists=("twice", "reconf", "renodes", "engine2", "subset", "stale", "interleaved"))
-    c += F([3], algs=("overlap", "simple"), bounds=((0, 100),), hists=("reconf", "engine2", "stale"), shards=4)
-    c += F([4], algs=("overlap", "simple"), bounds=((0, 100),), shards=8)
     c += F([2], vpsc="real")  # the real vpsc end to end (no contract stub)
     return c
 
@@ -46,8 +44,6 @@ def _layer_configs(tier):
         return layer.make_configs([1, 2]) + layer.make_configs([3], kinds="LCS")
     c = layer.make_configs([1, 2, 3])
     # four items: labels and stubs, without / with one bound; two bounds for labels only (sharded)
-    c += layer.make_configs([4], walls=("", "l", "r"), kinds="LS", extra=dict(shards=2))
-    c += layer.make_configs([4], walls=("lr",), kinds="L", extra=dict(shards=16))
     return c
 
 
